@@ -44,7 +44,7 @@ type Weights struct {
 // DefaultWeights is the general mix.
 func DefaultWeights() Weights {
 	return Weights{CreateFixed: 6, CreateBatch: 8, AddAllowed: 10, UpdateAllowed: 4, PlaceBid: 30, ModifyBid: 10,
-		Cancel: 3, Donate: 4, Block: 22, UpdateParams: 2, MsgAddAllowed: 1, PerturbPct: 12, PoorPct: 15, MaxAuctions: 4, ManyInstalmentsPct: 3, SnipePct: 10, DonateWaitingPct: 15, Reimport: 1, FaultBlock: 1}
+		Cancel: 3, Donate: 4, Block: 22, UpdateParams: 2, MsgAddAllowed: 1, PerturbPct: 12, PoorPct: 15, MaxAuctions: 4, ManyInstalmentsPct: 3, SnipePct: 10, DonateWaitingPct: 15, Reimport: 2, FaultBlock: 1}
 }
 
 // Gen draws operations. All randomness comes from rapid draws.
